@@ -10,7 +10,7 @@ from . import core, gen_tables
 def main():
     gen_tables.regenerate()
     mods = ["MofunModel"]
-    for p in sorted(glob.glob(os.path.join(core.LEAN, "theorems", "C*.json"))):
+    for p in sorted(glob.glob(os.path.join(core.LEAN, "theorems", "C*.json")) + glob.glob(os.path.join(core.LEAN, "theorems", "extra", "C*.json"))):
         m = json.load(open(p))
         for x in list(m.get("modules", [])) + list(m.get("driver_modules", [])):
             if x not in mods:
